@@ -793,6 +793,9 @@ fn final_oracles(cfg: &Cfg, sh: &Rc<RefCell<Shared>>, calls: &[CallRec], log: &W
         let mut prev_deadline = c.deadline;
         let mut acc_upper = Duration::ZERO;
         let mut first_wire_trace: Option<trace::Context> = None;
+        // a deadline that passes before (or while) a hop sends it arrives as "now": from then on
+        // the chain bound no longer applies (the per-hop rules do)
+        let mut expired_on_the_way = c.d_ms.is_none();
         for hop in 0..cfg.depth {
             let sent = log.iter().find(|e| e.link == hop && e.c2s && e.send && matches!(&e.item, Item::Req { body, .. } if *body == c.body));
             let recv = log.iter().find(|e| e.link == hop && e.c2s && !e.send && matches!(&e.item, Item::Req { body, .. } if *body == c.body));
@@ -846,10 +849,14 @@ fn final_oracles(cfg: &Cfg, sh: &Rc<RefCell<Shared>>, calls: &[CallRec], log: &W
                         out.viol("C07", "expired-deadline-not-now", format!("call {} hop {hop}: a deadline that had already passed when sent arrived {:?} away from the decode instant", c.body, if hd > recv.t_after { hd - recv.t_after } else { recv.t_before.saturating_duration_since(hd) }));
                     }
                     out.cell("C07.expired-on-send");
+                    expired_on_the_way = true;
                     acc_upper += recv.t_after.saturating_duration_since(sent.t_before);
                 } else {
                     let lower = recv.t_before.saturating_duration_since(sent.t_after);
                     let upper = recv.t_after.saturating_duration_since(sent.t_before);
+                    if prev_deadline <= sent.t_after {
+                        expired_on_the_way = true;
+                    }
                     if hd < prev_deadline {
                         // possibly expired between the bracket ends: then "now" is allowed
                         if !(prev_deadline <= sent.t_after && hd >= recv.t_before) {
@@ -884,8 +891,7 @@ fn final_oracles(cfg: &Cfg, sh: &Rc<RefCell<Shared>>, calls: &[CallRec], log: &W
         if let Some(HEv::Start { deadline, .. }) = s.hev.iter().rev().find(|e| matches!(e, HEv::Start { hop, call, .. } if *hop == cfg.depth - 1 && *call == c.body)) {
             if *deadline > c.deadline && *deadline - c.deadline > acc_upper + Duration::from_nanos(cfg.depth as u64) && c.deadline > Instant::now() - Duration::from_secs(3600) {
                 // only meaningful when the deadline was not expired on the way (then "now" applies)
-                let expired_somewhere = c.d_ms.is_none();
-                if !expired_somewhere {
+                if !expired_on_the_way {
                     out.viol("C07", "chain-deadline-stretched", format!("call {}: the leaf handler's deadline outlives the head caller's by {:?} > accumulated transit {:?}", c.body, *deadline - c.deadline, acc_upper));
                 }
             }
